@@ -48,12 +48,34 @@ struct Disagreement {
 
 /// run the model driver on the lines; returns its replies
 fn run_driver(driver: &str, lines: &[String]) -> Result<Vec<String>, String> {
-    let mut child = Command::new(driver)
+    // resource limits: a history that makes the model run away (it can, once model and implementation
+    // have diverged) must end as a reported correspondence failure, not take the machine down
+    let mem_kb: u64 = std::env::var("VERIF_DRIVER_MEM_KB").ok().and_then(|s| s.parse().ok()).unwrap_or(16_000_000);
+    let secs: u64 = std::env::var("VERIF_DRIVER_TIMEOUT_S").ok().and_then(|s| s.parse().ok()).unwrap_or(3600);
+    let mut child = Command::new("sh")
+        .arg("-c")
+        .arg(format!("ulimit -v {}; exec \"$0\"", mem_kb))
+        .arg(driver)
         .stdin(Stdio::piped())
         .stdout(Stdio::piped())
         .stderr(Stdio::null())
         .spawn()
         .map_err(|e| format!("cannot start the model driver {}: {}", driver, e))?;
+    let pid = child.id();
+    let done = Arc::new(std::sync::atomic::AtomicBool::new(false));
+    {
+        let done = done.clone();
+        std::thread::spawn(move || {
+            let t0 = Instant::now();
+            while t0.elapsed().as_secs() < secs {
+                std::thread::sleep(std::time::Duration::from_millis(500));
+                if done.load(std::sync::atomic::Ordering::SeqCst) {
+                    return;
+                }
+            }
+            let _ = Command::new("kill").arg("-9").arg(pid.to_string()).status();
+        });
+    }
     let mut stdin = child.stdin.take().unwrap();
     let stdout = child.stdout.take().unwrap();
     let n = lines.len();
@@ -78,7 +100,13 @@ fn run_driver(driver: &str, lines: &[String]) -> Result<Vec<String>, String> {
     }
     drop(stdin);
     let out = reader.join().map_err(|_| "driver reader failed".to_string())?;
-    let _ = child.wait();
+    let status = child.wait();
+    done.store(true, std::sync::atomic::Ordering::SeqCst);
+    if let Ok(st) = status {
+        if !st.success() && out.len() < n {
+            return Err(format!("the model driver ended abnormally ({}) after {} of {} replies (memory limit {} KB, time limit {} s) at line `{}`", st, out.len(), n, mem_kb, secs, lines.get(out.len()).map(|l| l.chars().take(80).collect::<String>()).unwrap_or_default()));
+        }
+    }
     Ok(out)
 }
 
